@@ -107,6 +107,8 @@ class Spec:
 
     def text(self, builder_ops, run_mode, use_args):
         lines = ["clock %d %d %d %d%s" % (self.clock + (" os" if getattr(self, "clock_os", False) else "",))]
+        if getattr(self, "parreg", 0):
+            lines.append("parreg %d" % self.parreg)
         for op in builder_ops:
             lines.append("b " + " ".join(op))
         lines.append("run " + run_mode)
@@ -266,8 +268,10 @@ ARG_LISTS = {
                                    ["10", "9", "100"], ["9223372036854775807", "9223372036854775808"]]),
     "f64": lambda rng: rng.choice([["1.5", "0.25", "10", "-2.5"], ["3", "1e3", "0.001"], ["2.5", "2.25", "-0.5", "100.125"]]),
     # string-typed lists whose texts are numbers: the documented order goes by the shown names, whatever type produced them
-    "string": lambda rng: rng.choice([["-0.5", "-2", "-10", "1.5", "1.25"], ["-3", "-20", "7", "-100"], ["b", "a", "c"], ["x10", "x9", "x100"], ["foo", "Foo", "bar baz"], ["é", "z", "a1"], ["10", "9", "abc", "-4"]]),
-    "str": lambda rng: rng.choice([["-2", "-10", "-0.5"], ["1.5", "1.25", "1e3", "-7"], ["b", "a"], ["v1.10", "v1.9", "v1.2"], ["one", "two", "three", "four"]]),
+    "string": lambda rng: rng.choice([["-0.5", "-2", "-10", "1.5", "1.25"], ["-3", "-20", "7", "-100"], ["b", "a", "c"], ["x10", "x9", "x100"], ["foo", "Foo", "bar baz"], ["é", "z", "a1"], ["10", "9", "abc", "-4"],
+                                      # an empty text is a name like any other: the case's path ends in "::"
+                                      ["", "a", "bc"], ["b", "", "a"]]),
+    "str": lambda rng: rng.choice([["-2", "-10", "-0.5"], ["1.5", "1.25", "1e3", "-7"], ["b", "a"], ["v1.10", "v1.9", "v1.2"], ["one", "two", "three", "four"], ["x", ""]]),
     "strslice": lambda rng: rng.choice([["-1", "-11", "-2", "3"], ["2.5", "2.25", "-0.25"], ["b", "a", "c"], ["k10", "k2", "k1"], ["solo"]]),
     "char": lambda rng: rng.choice([["b", "a", "c"], ["z", "é", "A"], ["1", "9", "5"]]),
     "dbg": lambda rng: rng.choice([["1:2", "0:5", "-1:3"], ["3:3"]]),
@@ -485,6 +489,17 @@ def gen_spec(rng, profile=None):
                 else:
                     g.opts["xt"], b.opts["mt"] = Y, X
                 sp.minmax_runner_xt = Z
+            sp.clock_os = False
+    if rng.random() < profile.get("p_huge_time", 0.0) and sp.clock[0] in (10 ** 9, 2 * 10 ** 9, 10 ** 6) and not getattr(sp, "wide_counts", False):
+        # samples that last 10^11 ... 10^12 days on a 1 Hz counter: time cells wider than every other cell of the table (small enough
+        # for the 64-bit counter to hold the whole run whatever sample count and thread counts the runner sets)
+        cands = [b for b in items if isinstance(b, Bench) and b.kind == "plain"]
+        if cands:
+            b = rng.choice(cands)
+            b.beh = {"cost": rng.choice([10 ** 16, 8_640_000_000_000_000, 10 ** 17, 123456789 * 10 ** 9]), "step": rng.choice([0, 1]), "mod": 2, "mode": 0}
+            b.opts = {k: v for k, v in (b.opts or {}).items() if k.startswith("c")}
+            b.opts.update({"sc": 2, "ss": 1})
+            sp.clock = (1, 1, 1, 1000)
             sp.clock_os = False
     if rng.random() < profile.get("p_budget_scenario", 0.0):
         # a benchmark whose number of rounds depends strongly on HOW its time budget is accounted: expensive input generation
